@@ -94,6 +94,19 @@ CHECKS["C16"] = dict(
     note="Trusted: numpy dense algebra (ref/linops.py); integer payloads make float arithmetic exact; pyMKL absent so sparse "
          "make_solver runs through SuperLU only; operand shapes in {1,2,3}^2.")
 
+CHECKS["C06"] = dict(
+    category="model_checking", design_ref="DESIGN.md §3 C06",
+    technique="the middle end explored as a transition system: every program of a bounded vform grammar x both scheduling modes, "
+              "the value invariant evaluated after EVERY pass of finalize against an independent 2-jet denotational semantics; "
+              "def-before-use abstract machine on the emitted order; operator identities on the full 0/1 entry grid",
+    text="For ~700 (quick) / ~1100 (thorough) programs x {precompute, on-demand} the expression DAG after each of the 10-20 passes "
+         "of VForm.finalize is evaluated in three generic jet environments and compared with the program's denotation computed "
+         "by ref/vsem.py (own forward-mode differentiation and chain rule); the final precompute/kernel schedule is executed "
+         "with uninitialised-read detection; det/inv/cross/products/traces/transposes are checked on every 0/1 assignment of "
+         "their entries, which proves the multilinear identities.",
+    note="Trusted: ref/vsem.py, ref/vgen.py; non-polynomial subterms are decided on the finite environment set only; "
+         "programs limited to the generator's families (node bound ~12), derivative order <= 2.")
+
 NOT_YET = {}
 
 
